@@ -43,7 +43,7 @@ pub fn lookup(id: &str) -> Option<Prop> {
         "C04" => p("C04", c04::run, c04::replay),
         "C05" => p("C05", c05::run, c05::replay),
         "C06" => p("C06", c06::run, c06::replay),
-        "C07" => Prop { needs_model: false, ..p("C07", c07::run, c07::replay) },
+        "C07" => p("C07", c07::run, c07::replay),
         "C08" => p("C08", c08::run, c08::replay),
         "C09" => p("C09", c09::run, c09::replay),
         "C10" => Prop { needs_model: false, watchdog_s: 120, on_timeout: c10::on_timeout, ..p("C10", c10::run, c10::replay) },
